@@ -379,6 +379,17 @@ void coefficient_gcd(const lp_polynomial_context_t* ctx, coefficient_t* gcd, con
 
   assert(ctx->K == lp_Z);
 
+  if (coefficient_is_zero(ctx, C1) || coefficient_is_zero(ctx, C2)) {
+    // gcd(C, 0) = C, normalized to a positive leading coefficient
+    const coefficient_t* C = coefficient_is_zero(ctx, C1) ? C2 : C1;
+    if (coefficient_lc_sgn(ctx, C) < 0) {
+      coefficient_neg(ctx, gcd, C);
+    } else {
+      coefficient_assign(ctx, gcd, C);
+    }
+    return;
+  }
+
   int cmp_type = coefficient_cmp_type(ctx, C1, C2);
 
   if (cmp_type < 0) {
